@@ -11,6 +11,8 @@ RULE = ('every context of EXH(10) (quick; EXH(12) thorough; 0/1 contingent prope
         '/ EXH(16 with <=6 columns) thorough + FAM + WIDE + RND; observation = (kind, left, right, order) of every entry for both '
         'include_unary values, plus that str()/tostring()/print of the result and of each entry are defined and have the documented '
         'layout; non-trivial = >=3 kinds present; distinct by table')
+from .latfam import INDIRECT_RULE  # noqa: E402
+RULE = RULE + INDIRECT_RULE
 EXHAUSTIVE = {'quick': False, 'thorough': False}
 SHARD_SIZE = 400
 
